@@ -194,7 +194,7 @@ func c06RunChain(batches [][]*clientpb.Command, idx []int, jump bool) string {
 		if err := cm.TryCommit(b); err != nil {
 			return "TryCommit: " + err.Error()
 		}
-		for el.Tick(nil) { //nolint
+		for el.Tick(context.Background()) {
 		}
 		if ruler.target != nil {
 			if msg := check(i + 1); msg != "" {
